@@ -179,9 +179,10 @@ class C10(core.Check):
         "tools/driver/driver.ml (int <-> Z conversion, line I/O)",
         "hand-written model Model/Edit.v of edit.py, numedit.py and text_layout.calc_coords/calc_pos/calc_line_pos/"
         "shift_line (validated by the per-event correspondence, not proved against Python)",
-        "Model/EditBytes.v (bytes-mode wiring of Edit.keypress and the coordinate maps) over C11's Model/Width.v "
-        "(str_util on bytes; decode_one arithmetic and width lookup re-translated by py2v every run) and C11's "
-        "Proofs/Utf8Proofs.v, Base/Utf8.v (utf8_encode / strict_decode = CPython's codec: validated by C11's check)",
+        "Model/EditBytes.v (bytes-mode wiring of Edit.keypress and the coordinate maps, all three byte-encoding modes) "
+        "over C11's Model/Width.v (str_util on bytes: within_double_byte, move_prev/next_char, calc_width, calc_text_pos; "
+        "decode_one arithmetic and width lookup re-translated by py2v every run) and C11's Proofs/Utf8Proofs.v, "
+        "WideProofs.v, WideExact.v, Base/Utf8.v (utf8_encode / strict_decode = CPython's codec: validated by C11's check)",
         "the layout structures, character widths and str.upper / str.lower values sent to the model are those computed by the "
         "implementation (StandardTextLayout.layout, str_util.get_char_width, str.upper, str.lower): layout correctness is C03's, "
         "width arithmetic C11's",
@@ -189,9 +190,12 @@ class C10(core.Check):
         "the rendered canvas)",
     ]
     assumptions = [
-        "str mode (code points) for parts 1-2; part 3 is bytes mode under the utf8 byte encoding (Model/EditBytes.v over "
-        "C11's str_util model Model/Width.v, imported read-only); bytes mode under euc-jp / big5 / latin-1 is judged by "
-        "the oracle only",
+        "str mode (code points) for parts 1-2; parts 3/3b are bytes mode (Model/EditBytes.v, parametric in str_util's "
+        "byte-encoding mode utf8 / wide / narrow, over C11's str_util model Model/Width.v, imported read-only); every "
+        "bytes stream (utf-8, euc-jp, big5, gbk, uhc, euc-kr, latin-1) goes through model + oracle",
+        "wide / narrow theorems: well-formed double-byte text (single bytes < 0x80, lead 0x81..0xFF + trail 0x40..0x7E / "
+        "0x80..0xFF) and ASCII keys; a non-ASCII key is inserted as UTF-8 bytes by the code whatever the byte encoding: "
+        "proposed KNOWN finding C10-bytes-key-utf8 (the model mirrors the code; the oracle demands the terminal encoding)",
         "pos_on_char_boundary_inv: initial caption/text are UTF-8 encodings of scalar values and the offset is on a "
         "character boundary; layouts carried by up/down/home/end/click cut the displayed text at character boundaries "
         "(lay_bnd; counted on real layouts in the evidence: hyp:bytes-layout-*); set_edit_pos arguments designate a "
@@ -245,8 +249,14 @@ class C10(core.Check):
                   "hypothesis that the layout cuts at character boundaries (measured on real layouts); "
                   "bytes_keys_simulate_reference - insert/enter/left/right/backspace/delete on bytes simulate the "
                   "character-level reference editor through the boundary map boff (tab does not: its blank count uses the byte "
-                  "offset - recorded); C11's move_prev_char/move_next_char/calc_text_pos theorems are reused.  Tied by the "
-                  "per-event correspondence on the utf-8 bytes stream (exhaustive 1..4-byte characters + random).")
+                  "offset - recorded); C11's move_prev_char/move_next_char/calc_text_pos theorems are reused.  WIDE (euc-jp, big5, gbk, uhc, euc-kr) and NARROW (latin-1) bytes, part "
+                  "3b, from one generic development instantiated with C11's within_double_byte theorems: "
+                  "wide_pos_on_char_boundary_inv (never inside a double-byte character, every history from well-formed text; "
+                  "layout events under the boundary hypothesis), wide_keys_simulate_reference / "
+                  "narrow_keys_simulate_reference (left/right/backspace/delete = one whole character, ASCII keys and enter "
+                  "inserted at the cursor), bytes_pos_inv (any mode, ANY bytes: 0 <= offset <= len).  Tied by the per-event "
+                  "correspondence on every bytes stream (exhaustive boundary-character scopes + random); a non-ASCII key "
+                  "under a non-UTF-8 byte encoding is a proposed known finding (inserted as UTF-8 bytes).")
     level_note = ("Trusted: Coq kernel, extraction + OCaml driver, the hand-written model Model/Edit.v (tied to the code by "
                   "an exact per-event comparison of text, offset, return value, signals with their arguments and the text "
                   "at emission time, pref_col_maxcol and _shift_view_to_cursor), the layout / width / str.upper data taken "
@@ -422,10 +432,12 @@ class C10(core.Check):
     def encode(self, case):
         _res, lays, _obs = self._trace(case)
         if case.get("bytes"):
-            if case["enc"] != "utf-8" or case["variant"] != ["edit"] or case["mask"] is not None:
-                raise core.MachineryError("only utf-8 bytes cases of Edit have a model")
+            if case["variant"] != ["edit"] or case["mask"] is not None:
+                raise core.MachineryError("only bytes cases of Edit without a mask have a model")
             import wcwidth
-            l = [100] + enc_list(list(case["caption"].encode("utf-8"))) + enc_list(list(case["text"].encode("utf-8")))
+            enc = case["enc"]
+            sel = 100 if enc == "utf-8" else (101 if enc in WIDE_ENCS else 102)      # str_util byte encoding mode
+            l = [sel] + enc_list(list(case["caption"].encode(enc))) + enc_list(list(case["text"].encode(enc)))
             l += enc_oz(case["pos"]) + [int(case["multiline"]), int(case["allow_tab"])]
             chars = set(case["caption"]) | set(case["text"]) | {"?"}
             for st in case["steps"]:
@@ -587,6 +599,18 @@ class C10(core.Check):
             if ob.get("layout_exc"):
                 msgs.append(f"{tag}: laying out the displayed text at width {w} raised {ob['layout_exc']}")
                 return msgs
+            # ---- bytes mode, a printable key that is not ASCII: the character must arrive in the byte encoding
+            if (isb and enc != "utf-8" and kind == "key" and st[1] not in NAMED and not st[1].isascii()
+                    and so["ret"] == ["handled"]):
+                try:
+                    want = list(st[1].encode(enc))
+                except UnicodeEncodeError:
+                    want = None
+                got_utf8 = t[:p] + list(st[1].encode("utf-8")) + t[p:]
+                if want is not None and nt == got_utf8 and nt != t[:p] + want + t[p:]:
+                    msgs.append(f"{tag}: a printable key is inserted as its UTF-8 bytes {bytes(st[1].encode('utf-8'))!r}, "
+                                f"not as the character in the byte encoding {enc} ({bytes(want)!r})")
+                    return msgs
             # ---- offset range / character boundary (pos_inv)
             if not (0 <= np_ <= len(nt)):
                 msgs.append(f"{tag}: offset {np_} outside 0..{len(nt)}")
@@ -755,8 +779,13 @@ class C10(core.Check):
         """Returns (message or None, new p, new t, new rt, new prefs)."""
         from urwid import str_util
 
-        def unit(c):      # one character as the text's element type
-            return list(c.encode("utf-8")) if isb else cps(c)
+        def unit(c):      # one character as the text's element type (bytes mode: in the byte encoding)
+            if not isb:
+                return cps(c)
+            try:
+                return list(c.encode(enc))
+            except UnicodeEncodeError:
+                return list(c.encode("utf-8"))
 
         def prev_char(tb, q):
             if not isb:
@@ -1146,10 +1175,15 @@ class C10(core.Check):
             yield self.random_edit_case(rng, rng.choice([4, 8, 12, 20]))
         for _ in range(1500 if quick else 10000):
             yield self.random_num_case(rng, rng.choice([4, 8, 14]))
-        # bytes mode under utf-8: model (Model/EditBytes.v) + oracle
+        # bytes mode: model (Model/EditBytes.v, mode utf8 / wide / narrow) + oracle
         yield from self.exhaustive_bytes_cases(3 if quick else 4)
         for _ in range(400 if quick else 4000):
             yield self.bytes_case(rng, "utf-8")
+        yield from self.exhaustive_wide_cases(2 if quick else 3)
+        n = 450 if quick else 3600
+        for enc in WIDE_ENCS + ["latin-1"]:
+            for _ in range(n // 6):
+                yield self.bytes_case(rng, enc)
 
     def search_cases(self, rng, tier):
         while True:
@@ -1193,10 +1227,10 @@ class C10(core.Check):
             # ASCII whose byte values lie in the low trail-byte range, and two-byte characters at every
             # boundary of the encoding's lead/trail ranges
             chars = ["a", " ", "@", "~", "\\", "A"] + wide_alphabet(enc) * 2
-            keych = ["a", " ", "@", "~"]
+            keych = ["a", " ", "@", "~", "a", " "] + wide_alphabet(enc)[:2]
         else:
             chars = ["a", " ", ACC, "b"]
-            keych = ["a", " "]
+            keych = ["a", " ", "b", ACC]
         n = rng.choice([0, 1, 2, 3, 5, 8])
         text = "".join(rng.choice(chars + ["\n"]) for _ in range(n))
         w = rng.randint(1, 9)
@@ -1209,7 +1243,8 @@ class C10(core.Check):
                 "steps": [s for s in self._steps(rng, rng.choice([4, 8, 14]), w, keych, clicks=True,
                                                  names=["left", "right", "backspace", "delete"] * 3 +
                                                        ["up", "down", "home", "end", "enter", "tab"])
-                          if s[0] != "setpos" and (enc == "utf-8" or s[0] != "key" or s[1].isascii())]}
+                          if s[0] != "setpos" and (enc == "utf-8" or s[0] != "key" or s[1].isascii()
+                                                   or (len(s[1]) == 1 and s[1] in keych))]}
 
     def exhaustive_bytes_cases(self, maxlen):
         """utf-8 bytes mode: every text of characters of 1, 2, 3 and 4 bytes up to maxlen, the cursor on every
@@ -1250,19 +1285,6 @@ class C10(core.Check):
 
     def extra_checks(self, tier, rng, ev):
         out = []
-        # 1. bytes mode under the other encodings: oracle only (offset range, character boundary, reference editor);
-        #    utf-8 bytes cases are ordinary cases (model + oracle)
-        n = 375 if tier == "quick" else 3000
-        stream = [self.bytes_case(rng, enc) for enc in WIDE_ENCS + ["latin-1"] for _ in range(n // 3)]
-        for c in itertools.chain(self.exhaustive_wide_cases(2 if tier == "quick" else 3), stream):
-            if True:
-                res = self.run_impl(c)
-                ev["evaluations"] += 1
-                if self.nontrivial_bytes(c, res):
-                    ev["distinct"].add(core.h([c, res]))
-                self.distribution(c, res, ev["dist"])
-                for m in self.oracle(c, res):
-                    out.append((c, m))
         # 2. the hypothesis of numeric_alphabet_inv_NumEdit (lower_honest) for the real str.upper / str.lower,
         #    over ALL code points, for every alphabet the generators use
         maximal = [ALLOWED, "0123456789.", "0123456789,", "STU012"]
